@@ -189,6 +189,9 @@ def examine_threads(case):
     env = get_env("threads-shared")
     errors = []
     barrier = threading.Barrier(8)
+    # half of the jobs use one compiled query object shared by all threads (each thread still advances its own
+    # iterator); the other half compile concurrently on the shared environment
+    shared = {i: env.compile(j["q"]) for i, j in enumerate(jobs) if i % 2 == 0}
 
     def worker(tid):
         try:
@@ -196,7 +199,7 @@ def examine_threads(case):
             for rep in range(case.get("reps", 3)):
                 for k in range(tid % len(jobs), len(jobs) * 2, 1):
                     j = jobs[k % len(jobs)]
-                    cq = env.compile(j["q"])
+                    cq = shared.get(k % len(jobs)) or env.compile(j["q"])
                     it = iter(cq.finditer(case["docs"][j["doc"]]))
                     got = []
                     for node in it:
